@@ -180,20 +180,25 @@ func generateCache(id int32, fv canCall, l int, okayCheck func([]reflect.Value) 
 	return cacher
 }
 
+// noValue is the key element for nil interfaces, invalid values and the unused tail
+// of the key array: a value of an unexported type cannot collide with a real input
+// (an empty string used to be the placeholder and collided with the input "").
+type noValue struct{}
+
 func fillKeyFromInputs(key []any, in []reflect.Value) {
 	for i, v := range in {
 		if !v.IsValid() {
-			key[i] = ""
+			key[i] = noValue{}
 			continue
 		}
 		if v.Type().Kind() == reflect.Interface && v.IsNil() {
-			key[i] = ""
+			key[i] = noValue{}
 			continue
 		}
 		key[i] = v.Interface()
 	}
 	for i := len(in); i < len(key); i++ {
-		key[i] = ""
+		key[i] = noValue{}
 	}
 }
 
